@@ -257,10 +257,14 @@ static void engine(void)
     if (ref_init()) exit(2);
     init_liberasurecode_rs_vand_pin();
     int thorough = !strcmp(vh_tier(), "thorough");
-    static const struct shape lives[] = { { EC_BACKEND_LIBERASURECODE_RS_VAND, 4, 2, 2 }, { EC_BACKEND_FLAT_XOR_HD, 5, 5, 3 }, { EC_BACKEND_ISA_L_RS_VAND, 3, 2, 2 }, { EC_BACKEND_NULL, 2, 1, 1 } };
+    static const struct shape lives[] = { { EC_BACKEND_LIBERASURECODE_RS_VAND, 4, 2, 2 }, { EC_BACKEND_FLAT_XOR_HD, 5, 5, 3 }, { EC_BACKEND_ISA_L_RS_VAND, 3, 2, 2 }, { EC_BACKEND_NULL, 2, 1, 1 },
+                                          /* thorough only */
+                                          { EC_BACKEND_LIBERASURECODE_RS_VAND, 1, 1, 1 }, { EC_BACKEND_LIBERASURECODE_RS_VAND, 10, 4, 4 }, { EC_BACKEND_LIBERASURECODE_RS_VAND, 1, 31, 31 }, { EC_BACKEND_LIBERASURECODE_RS_VAND, 2, 3, 3 },
+                                          { EC_BACKEND_FLAT_XOR_HD, 3, 3, 3 }, { EC_BACKEND_FLAT_XOR_HD, 6, 6, 4 }, { EC_BACKEND_ISA_L_RS_CAUCHY, 3, 3, 3 }, { EC_BACKEND_ISA_L_RS_VAND, 2, 5, 5 } };
+    int nlive = thorough ? 12 : 4;
     static void (*const fns[])(struct live *) = { args_encode, args_decode, args_reconstruct, args_misc };
     static const char *fnn[] = { "encode", "decode", "reconstruct", "misc" };
-    for (int li = 0; li < 4; li++) for (int f = 0; f < 4; f++) {
+    for (int li = 0; li < nlive; li++) for (int f = 0; f < 4; f++) {
         if (!vh_group_begin("A/%s/%s-k%dm%d", fnn[f], be_name(lives[li].be), lives[li].k, lives[li].m)) continue;
         struct live L;
         if (open_live(&L, lives[li]) == 0) fns[f](&L);
